@@ -4,6 +4,7 @@ from sa.report import Check
 from sa.rules import bounds_rules as R
 from sa.rules import dispatch as D
 from sa.rules import pipeline as P
+from sa.rules import ranges as RG
 
 
 def main(tier):
@@ -21,7 +22,9 @@ def main(tier):
             "every operator has a transfer function and every FunctionMapping table reached by an operator has its "
             "key (R-DISPATCH-FM); the 64-bit gate is registered over every expression position with only the "
             "documented exemptions and recurses into subexpressions (R-GATE). "
-            "Not decided: the gcd/modulus formulas, leaf ranges, the infinity arithmetic helpers, tightness."))
+            "leaf ranges of UInt/Int/Bcd fields and the gate's 64-bit predicates equal the exact value ranges of those types for "
+            "every width 1..64 (R-INTRANGE, by constant folding). "
+            "Not decided: the gcd/modulus formulas, the infinity arithmetic helpers, tightness."))
     r, s = cx.repo, cx.schema
     chk.run("R-BOUNDDIR", R.bounddir, r, s, floor=10, control=lambda: R.control(r))
     chk.run("R-OPERANDS", R.operands, r, s, floor=8)
@@ -29,4 +32,5 @@ def main(tier):
     dctl = D.control(r)
     chk.run("R-DISPATCH-FM", D.fm_flow_rule, r, s, floor=30, control=lambda: dctl)
     chk.run("R-GATE", P.gate, r, s, cx.sites, floor=4)
+    chk.run("R-INTRANGE", RG.intrange, r, floor=190)
     return chk.finish()
